@@ -215,8 +215,10 @@ func ResetRun() {
 	Steps = 0
 	cur = nil
 	setupVisits = 0
-	PoolGets, PoolDrops = 0, 0
+	PoolGets, PoolDrops, SyncPoints = 0, 0, 0
 	PoolChoice = func(n int) int { return n - 1 }
+	SyncHook = nil
+	DrainPools()
 }
 
 // Configure installs the map-order fault for this process. nSites is the
